@@ -13,16 +13,20 @@ type termRef struct {
 	Set  func(*ast.Term)
 	InCutBody bool
 	Scope     []string // names bound on the path from the declaration to this term (consumed or not)
+	Alias     string   // name under which the provider is currently known (bound by the last right rule), "" if none
 }
 
 func collectTerms(p *ast.Program) []termRef {
 	var out []termRef
-	var walk func(d *ast.Decl, t *ast.Term, set func(*ast.Term), inBody bool, scope []string)
-	walk = func(d *ast.Decl, t *ast.Term, set func(*ast.Term), inBody bool, scope []string) {
+	var walk func(d *ast.Decl, t *ast.Term, set func(*ast.Term), inBody bool, scope []string, alias string)
+	walk = func(d *ast.Decl, t *ast.Term, set func(*ast.Term), inBody bool, scope []string, alias string) {
 		if t == nil {
 			return
 		}
-		out = append(out, termRef{d, t, set, inBody, scope})
+		out = append(out, termRef{d, t, set, inBody, scope, alias})
+		isProv := func(n ast.Nm) bool {
+			return n.Self || (alias != "" && n.S == alias) || (!inBody && d.Explicit != "" && n.S == d.Explicit)
+		}
 		ext := func(ns ...ast.Nm) []string {
 			sc := append([]string{}, scope...)
 			for _, n := range ns {
@@ -33,21 +37,35 @@ func collectTerms(p *ast.Program) []termRef {
 			return sc
 		}
 		if t.Body != nil {
-			walk(d, t.Body, func(n *ast.Term) { t.Body = n }, true, scope)
+			walk(d, t.Body, func(n *ast.Term) { t.Body = n }, true, scope, "")
 		}
 		if t.K != nil {
-			sc := scope
+			sc, al := scope, alias
 			switch t.Kind {
-			case ast.TRecv, ast.TSplit:
+			case ast.TRecv:
 				sc = ext(t.X, t.Y)
-			case ast.TShift, ast.TNew:
+				if isProv(t.Z) {
+					al = t.Y.S
+				}
+			case ast.TSplit:
+				sc = ext(t.X, t.Y)
+			case ast.TShift:
+				sc = ext(t.X)
+				if isProv(t.Z) {
+					al = t.X.S
+				}
+			case ast.TNew:
 				sc = ext(t.X)
 			}
-			walk(d, t.K, func(n *ast.Term) { t.K = n }, inBody, sc)
+			walk(d, t.K, func(n *ast.Term) { t.K = n }, inBody, sc, al)
 		}
 		for i := range t.Brs {
 			i := i
-			walk(d, t.Brs[i].K, func(n *ast.Term) { t.Brs[i].K = n }, inBody, ext(t.Brs[i].Payload))
+			al := alias
+			if t.Kind == ast.TCase && isProv(t.X) {
+				al = t.Brs[i].Payload.S
+			}
+			walk(d, t.Brs[i].K, func(n *ast.Term) { t.Brs[i].K = n }, inBody, ext(t.Brs[i].Payload), al)
 		}
 	}
 	for _, d := range p.Decls {
@@ -60,7 +78,7 @@ func collectTerms(p *ast.Program) []termRef {
 			if d.Kind == ast.DPrc {
 				sc = append(sc, refFree(d.Body)...)
 			}
-			walk(d, d.Body, func(n *ast.Term) { d.Body = n }, false, sc)
+			walk(d, d.Body, func(n *ast.Term) { d.Body = n }, false, sc, "")
 		}
 	}
 	return out
@@ -128,7 +146,7 @@ func refFree(t *ast.Term) []string {
 }
 
 var MutationKinds = []string{
-	"binder-to-scope", "case-payload-to-scope", "case-payload-to-scope", "drop-statement", "dup-statement", "rename-binder", "rename-use", "wait-to-drop", "insert-drop", "insert-split",
+	"binder-to-scope", "case-payload-to-scope", "case-payload-to-scope", "binder-to-alias", "alias-to-live", "cut-reuse-self-as-name", "drop-statement", "dup-statement", "rename-binder", "rename-use", "wait-to-drop", "insert-drop", "insert-split",
 	"extra-provider", "swap-send-args", "wrong-label", "drop-branch", "dup-branch", "extra-branch", "arity-minus", "arity-plus",
 	"wrong-callee", "self-misplaced", "ann-inequivalent", "ann-mode", "param-mode", "ret-mode", "prc-mode", "ann-equivalent",
 	"swap-statements", "cut-body-continuation", "remove-ann", "polarity", "self-arg", "shift-words",
@@ -247,6 +265,106 @@ func (d D) Mutate(p *ast.Program, kind string) (*ast.Program, string, bool) {
 			renameUses(r.T, from, to)
 		}
 		return q, fmt.Sprintf("binder %s of a %s renamed to the earlier name %s in %s", from, ast.TermKindName[r.T.Kind], to, declName(r.Decl)), true
+	case "binder-to-alias": // a client-side binder takes the name under which the provider is currently known
+		r, ok := pick(func(r termRef) bool {
+			if r.Alias == "" {
+				return false
+			}
+			switch r.T.Kind {
+			case ast.TRecv, ast.TShift:
+				return !r.T.Z.Self && r.T.Z.S != r.Alias
+			case ast.TCase:
+				return len(r.T.Brs) > 0 && !r.T.X.Self && r.T.X.S != r.Alias
+			}
+			return false // cuts and splits: the reference leaves the verdict open there
+		})
+		if !ok {
+			return nil, "", false
+		}
+		to := r.Alias
+		var from string
+		switch r.T.Kind {
+		case ast.TRecv, ast.TSplit:
+			if d.Bool("second") {
+				from, r.T.Y.S = r.T.Y.S, to
+			} else {
+				from, r.T.X.S = r.T.X.S, to
+			}
+		case ast.TShift, ast.TNew:
+			from, r.T.X.S = r.T.X.S, to
+		case ast.TCase:
+			i := d.Pick(len(r.T.Brs), "br")
+			from, r.T.Brs[i].Payload.S = r.T.Brs[i].Payload.S, to
+		}
+		if from == to {
+			return nil, "", false
+		}
+		// the uses of the binder keep referring to it: rename them as well (the alias' own uses now coincide)
+		renameUses(r.T, from, to)
+		return q, fmt.Sprintf("binder %s of a %s renamed to the provider's alias %s in %s", from, ast.TermKindName[r.T.Kind], to, declName(r.Decl)), true
+	case "alias-to-live": // the name a right rule binds for the provider takes the name of a channel bound earlier
+		r, ok := pick(func(r termRef) bool {
+			if len(r.Scope) == 0 {
+				return false
+			}
+			isProv := r.T.Z.Self || (r.Alias != "" && r.T.Z.S == r.Alias)
+			switch r.T.Kind {
+			case ast.TRecv, ast.TShift:
+				return isProv
+			case ast.TCase:
+				return len(r.T.Brs) > 0 && (r.T.X.Self || (r.Alias != "" && r.T.X.S == r.Alias))
+			}
+			return false
+		})
+		if !ok {
+			return nil, "", false
+		}
+		to := r.Scope[d.Pick(len(r.Scope), "to")]
+		var from string
+		switch r.T.Kind {
+		case ast.TRecv:
+			from, r.T.Y.S = r.T.Y.S, to
+		case ast.TShift:
+			from, r.T.X.S = r.T.X.S, to
+		case ast.TCase:
+			i := d.Pick(len(r.T.Brs), "br")
+			from, r.T.Brs[i].Payload.S = r.T.Brs[i].Payload.S, to
+			if from != to {
+				renameUses(&ast.Term{K: r.T.Brs[i].K}, from, to)
+			}
+		}
+		if from == to {
+			return nil, "", false
+		}
+		if r.T.Kind != ast.TCase {
+			renameUses(r.T, from, to)
+		}
+		// make sure the alias is actually used as the provider afterwards
+		return q, fmt.Sprintf("provider alias %s bound by a %s renamed to the earlier name %s in %s", from, ast.TermKindName[r.T.Kind], to, declName(r.Decl)), true
+	case "cut-reuse-self-as-name": // x : T <- new B re-using a live name, with B naming its provider x instead of self
+		r, ok := pick(func(r termRef) bool {
+			return r.T.Kind == ast.TNew && len(r.Scope) > 0 && r.T.Body != nil && !r.T.Body.HasContinuation() && r.T.Body.Kind != ast.TCall
+		})
+		if !ok {
+			return nil, "", false
+		}
+		to := r.Scope[d.Pick(len(r.Scope), "to")]
+		from := r.T.X.S
+		if from == to {
+			return nil, "", false
+		}
+		r.T.X.S = to
+		renameUses(r.T, from, to)
+		b := r.T.Body
+		self2 := func(n *ast.Nm) {
+			if n.Self {
+				*n = ast.Nm{S: to, Pol: n.Pol}
+			}
+		}
+		self2(&b.X)
+		self2(&b.Y)
+		self2(&b.Z)
+		return q, fmt.Sprintf("cut %s re-uses the earlier name %s and its body calls its provider %s", from, to, to), true
 	case "rename-use": // one use site refers to another channel
 		r, ok := pick(func(r termRef) bool { return !r.T.X.Self && r.T.X.S != "" && r.T.Kind != ast.TNew && r.T.Kind != ast.TRecv && r.T.Kind != ast.TSplit && r.T.Kind != ast.TShift })
 		if !ok {
